@@ -65,13 +65,16 @@ const TEMPLATES: &[&str] = &[
     "XACK K G ID ID", "XLEN K", "ZRANGEBYSCORE K N N LIMIT N N", "ZREVRANGEBYSCORE K N N WITHSCORES LIMIT N N", "ZRANGE K N N WITHSCORES", "ZREVRANGE K N N", "ZADD K N S N S", "ZINCRBY K N S", "ZCOUNT K N N",
     "ZPOPMIN K N", "ZPOPMAX K N", "ZRANK K S", "SCAN N MATCH S COUNT N TYPE S", "SCAN N COUNT N", "HSCAN K N MATCH S COUNT N", "SSCAN K N COUNT N", "ZSCAN K N MATCH S COUNT N", "SETRANGE K N S", "GETRANGE K N N",
     "LRANGE K N N", "LTRIM K N N", "LSET K N S", "LINDEX K N", "LREM K N S", "SRANDMEMBER K N", "SPOP K N", "EXPIRE K N", "PEXPIRE K N", "SETEX K N S", "PSETEX K N S", "SET K S EX N", "SET K S PX N", "SET K S PX N NX",
+    "CALL SETBIT K N N", "CALL SETBIT K N 1", "CALL GETBIT K N", "CALL BITCOUNT K N N", "CALL BITCOUNT K", "CALL CONFIG GET S", "CALL TIME", "CALL INFO S",
     "INCRBY K N", "DECRBY K N", "HINCRBY K S N", "SELECT N", "EVAL S N K K", "EVAL S N", "EVALSHA S N K", "MEMORY USAGE K", "OBJECT ENCODING K", "RENAME K K", "RENAMENX K K", "MSET K S K S", "HMGET K S S", "HSET K S S S S",
 ];
 const IDS: &[&str] = &["0", "0-0", "0-1", "1-1", "1-0", "1-2", "5-5", "-", "+", "$", ">", "*", "18446744073709551615-18446744073709551615", "18446744073709551615-0", "18446744073709551616-0", "1-18446744073709551616", "1-", "-1", "abc", "(1-1", "1-1-1", ""];
 
 fn templated(r: &mut Rng) -> Vec<B> {
     let t = *r.pick(TEMPLATES);
-    t.split(' ').map(|tok| match tok {
+    // "CALL ..." = commands that only the script path implements: sent through redis.call
+    let (prefix, t): (Vec<B>, &str) = match t.strip_prefix("CALL ") { Some(rest) => (vec![b("EVAL"), b("return redis.call(unpack(ARGV))"), b("0")], rest), None => (vec![], t) };
+    prefix.into_iter().chain(t.split(' ').map(|tok| match tok {
         "K" => b(*r.pick(KEYS)),
         "G" => b(*r.pick(&["g1", "g1", "nogroup", ""])),
         "C" => b(*r.pick(&["c1", "c2", ""])),
@@ -79,7 +82,7 @@ fn templated(r: &mut Rng) -> Vec<B> {
         "N" => if r.chance(1, 2) { b(*r.pick(BOUNDARY)) } else { b(*r.pick(&["0", "1", "2", "10", "-1", "100"])) },
         "S" => b(*r.pick(&["a", "f", "m1", "*", "", "return 1", "return redis.call('PING')", "string", "zset", "k*", "[", "\\"])),
         lit => b(lit),
-    }).collect()
+    })).collect()
 }
 
 fn hostile_frame(r: &mut Rng) -> Vec<u8> {
@@ -181,7 +184,9 @@ pub fn gen(seed: u64, idx: u64, tier: Tier) -> Scenario {
 fn probe(h: &mut H, final_probe: bool, last: &str, sent_since: &mut usize, sentinels: (bool, bool)) {
     if h.dead.is_some() { return; }
     let mx = alloc_seam::reset_max();
-    let allowed = (64usize << 20) + 8 * *sent_since;
+    // (a single string may legitimately grow to Redis' 512 MB limit from a few request bytes - SETRANGE, SETBIT, APPEND;
+    // anything beyond that is sized by a number the client merely declared)
+    let allowed = (600usize << 20) + 8 * *sent_since;
     if mx > allowed {
         h.violate(format!("C06/alloc-bomb/{}", last), format!("largest single allocation since the last probe: {} bytes for {} request bytes (last command: {})", mx, sent_since, last));
     }
